@@ -107,6 +107,27 @@ fn minifat_cell_off(p: &Parsed, i: usize) -> Option<usize> {
     Some(p.sector_off(s) + 4 * (i % per))
 }
 
+/// What a writer that does not mark FAT/DIFAT sectors may have left in the cell: the
+/// library overwrites the cell before it looks at the links, so any value is tolerated.
+fn unmarked_value(p: &Parsed, end_variant: bool, sel: u16, other_mark: u32) -> u32 {
+    let live: Vec<u32> = p.dir_chain.iter().chain(p.ministream_chain.iter()).copied().collect();
+    match (sel >> 3) % 8 {
+        0 | 1 => {
+            if end_variant {
+                refparse::ENDOFCHAIN
+            } else {
+                refparse::FREESECT
+            }
+        }
+        2 => 0,
+        3 => live.first().copied().unwrap_or(1),
+        4 => live.last().copied().unwrap_or(2),
+        5 => p.nsectors as u32 + 5,
+        6 => other_mark,
+        _ => 0x0012_3456,
+    }
+}
+
 /// Applies a documented deviation; returns false if it is not applicable to this image.
 pub fn apply_dev(img: &mut Vec<u8>, p: &Parsed, dev: Dev, sel: u16) -> bool {
     let per = p.sector_len / 4;
@@ -148,7 +169,7 @@ pub fn apply_dev(img: &mut Vec<u8>, p: &Parsed, dev: Dev, sel: u16) -> bool {
             let fs = p.difat[pick(sel, p.difat.len())] as usize;
             match fat_cell_off(p, fs) {
                 Some(o) => {
-                    put32(img, o, if dev == Dev::FatSectorUnmarkedEnd { refparse::ENDOFCHAIN } else { refparse::FREESECT });
+                    put32(img, o, unmarked_value(p, dev == Dev::FatSectorUnmarkedEnd, sel, refparse::DIFSECT));
                     true
                 }
                 None => false,
@@ -161,7 +182,7 @@ pub fn apply_dev(img: &mut Vec<u8>, p: &Parsed, dev: Dev, sel: u16) -> bool {
             let ds = p.difat_sectors[pick(sel, p.difat_sectors.len())] as usize;
             match fat_cell_off(p, ds) {
                 Some(o) => {
-                    put32(img, o, if dev == Dev::DifatSectorUnmarkedEnd { refparse::ENDOFCHAIN } else { refparse::FREESECT });
+                    put32(img, o, unmarked_value(p, dev == Dev::DifatSectorUnmarkedEnd, sel, refparse::FATSECT));
                     true
                 }
                 None => false,
@@ -544,6 +565,52 @@ fn solo(v: &Value) -> Result<CaseReport, String> {
     run_solo(v, report)
 }
 
+/// Direction A on a rare strict-valid layout: exactly 236 FAT sectors (header DIFAT + one
+/// completely full DIFAT sector, no padding) whose last DIFAT entry is sector 0.
+fn full_difat_sector(_ctx: &Ctx, ev: &mut Value) -> Option<Violation> {
+    use crate::model::{Kind, Node};
+    let mut found = None;
+    for payload in (15_300_000usize..15_460_000).step_by(10_000) {
+        let mut model = Model::new();
+        model.insert(&[], Node { name: "payload".into(), state: 1, kind: Kind::Stream { data: pattern(11, 0, payload) } });
+        model.insert(&[], Node { name: "s".into(), state: 0, kind: Kind::Stream { data: pattern(12, 0, 700) } });
+        let (img, info) = synthesize_opts(&model, 3, &[9, 50000, 3, 41000, 77], 0, 4);
+        if info.fat_sectors == 236 && info.difat_sectors == 1 {
+            found = Some((img, model));
+            break;
+        }
+    }
+    let (img, model) = match found {
+        Some(x) => x,
+        None => return Some(Violation { key: "harness|scenario".into(), detail: "no payload size gives exactly 236 FAT sectors".into(), case: Value::Null, trace: vec![] }),
+    };
+    let parsed = match refparse::parse(&img) {
+        Ok(p) => p,
+        Err(e) => return Some(Violation { key: "harness|parse".into(), detail: e, case: Value::Null, trace: vec![] }),
+    };
+    if !parsed.rules.is_empty() || parsed.difat.last() != Some(&0) {
+        return Some(Violation { key: "harness|scenario".into(), detail: format!("scenario image: rules {:?}, last DIFAT entry {:?}", parsed.rules.first(), parsed.difat.last()), case: Value::Null, trace: vec![] });
+    }
+    let r = (|| -> Result<(), Fail> {
+        let mut s = open_bytes(&img, true)?.map_err(|e| Fail::new("A|strict_rejects_valid_base|full_difat", format!("open_strict rejects a valid image with a full DIFAT sector: {}", e)))?;
+        let mut p = open_bytes(&img, false)?.map_err(|e| Fail::new(format!("A|strict_ok_permissive_err|{}", normalise_msg(&e.to_string())), format!("open_strict accepts a valid image with 236 FAT sectors (full DIFAT sector, last entry = sector 0) but open rejects it: {}", e)))?;
+        let (ds, dp) = (dump(&mut s)?, dump(&mut p)?);
+        if ds != dp {
+            return Err(Fail::new("A|dumps_differ|full_difat", "strict and permissive expose different content for the full-DIFAT-sector image"));
+        }
+        let eng = Engine::from_image(img.clone(), model.clone(), 3, None, vec![], Oracles::default(), false)?;
+        eng.compare_dump(&mut p, "full_difat")?;
+        Ok(())
+    })();
+    match r {
+        Ok(()) => {
+            ev["coverage"]["full_difat_sector_scenario"] = serde_json::json!({"fat_sectors": 236, "image_bytes": img.len(), "last_difat_entry": 0});
+            None
+        }
+        Err(f) => Some(Violation { key: f.key, detail: f.detail, case: serde_json::json!({"scenario": "V3, 236 FAT sectors, full DIFAT sector, last DIFAT entry is sector 0"}), trace: vec![] }),
+    }
+}
+
 pub fn def() -> PropDef {
     PropDef {
         id: "C16",
@@ -555,7 +622,7 @@ pub fn def() -> PropDef {
         worker,
         solo,
         hang_cpu_s: 30.0,
-        extra: None,
+        extra: Some(full_difat_sector),
         confirm_known: false,
     }
 }
